@@ -526,4 +526,97 @@ theorem bytes_reassemble_V3 (p : Nat) (hp : p < 4294967296) (h : p / 16777216 = 
   rw [e3] at this
   exact this
 
+/-! ### ranges ("with hsv in [0,1]") -/
+section Ranges
+variable {α : Type} [Field α] [LinearOrder α] [IsStrictOrderedRing α]
+
+/-- `rgb2hsv_d` maps the unit cube into [0,1) × [0,1] × [0,1] -/
+theorem rgb2hsvV3_range (x y z : α) (hx0 : 0 ≤ x) (hx1 : x ≤ 1) (hy0 : 0 ≤ y) (hy1 : y ≤ 1) (hz0 : 0 ≤ z) (hz1 : z ≤ 1) :
+    0 ≤ (rgb2hsvV3 ⟨x, y, z⟩).x ∧ (rgb2hsvV3 ⟨x, y, z⟩).x < 1 ∧
+    0 ≤ (rgb2hsvV3 ⟨x, y, z⟩).y ∧ (rgb2hsvV3 ⟨x, y, z⟩).y ≤ 1 ∧
+    0 ≤ (rgb2hsvV3 ⟨x, y, z⟩).z ∧ (rgb2hsvV3 ⟨x, y, z⟩).z ≤ 1 := by
+  have hxM : x ≤ max x (max y z) := le_max_left _ _
+  have hyM : y ≤ max x (max y z) := le_trans (le_max_left _ _) (le_max_right _ _)
+  have hzM : z ≤ max x (max y z) := le_trans (le_max_right _ _) (le_max_right _ _)
+  have hmx : min x (min y z) ≤ x := min_le_left _ _
+  have hmy : min x (min y z) ≤ y := le_trans (min_le_right _ _) (min_le_left _ _)
+  have hmz : min x (min y z) ≤ z := le_trans (min_le_right _ _) (min_le_right _ _)
+  have hM1 : max x (max y z) ≤ 1 := max_le hx1 (max_le hy1 hz1)
+  have hm0 : 0 ≤ min x (min y z) := le_min hx0 (le_min hy0 hz0)
+  generalize hMd : max x (max y z) = M at *
+  generalize hmd : min x (min y z) = m at *
+  have hmM : m ≤ M := le_trans hmx hxM
+  have hM0' : 0 ≤ M := le_trans hx0 hxM
+  by_cases hM0 : M = 0
+  · have : rgb2hsvV3 ⟨x, y, z⟩ = ⟨0, 0, M⟩ := by
+      unfold rgb2hsvV3; simp only []; rw [max3_eq, min3_eq, hMd, hmd]; simp [hM0]
+    rw [this]; simp [hM0]
+  · by_cases hMm : M = m
+    · have : rgb2hsvV3 ⟨x, y, z⟩ = ⟨0, 0, M⟩ := by
+        unfold rgb2hsvV3; simp only []; rw [max3_eq, min3_eq, hMd, hmd]; simp [hM0, hMm]
+      rw [this]; simp [hM0', hM1]
+    · rw [rgb2hsvV3_eval x y z M m hMd hmd hM0 hMm]
+      have hr : 0 < M - m := sub_pos.mpr (lt_of_le_of_ne hmM (Ne.symm hMm))
+      have hMpos : 0 < M := lt_of_le_of_ne hM0' (Ne.symm hM0)
+      have hH : -1 ≤ (if x = M then (y - z) / (M - m) else if y = M then 2 + (z - x) / (M - m)
+              else 4 + (x - y) / (M - m)) ∧
+          (if x = M then (y - z) / (M - m) else if y = M then 2 + (z - x) / (M - m)
+              else 4 + (x - y) / (M - m)) ≤ 5 := by
+        have b1 : ∀ u v : α, m ≤ u → u ≤ M → m ≤ v → v ≤ M → -1 ≤ (u - v) / (M - m) ∧ (u - v) / (M - m) ≤ 1 := by
+          intro u v h1 h2 h3 h4
+          constructor
+          · rw [le_div_iff₀ hr]; linarith
+          · rw [div_le_one hr]; linarith
+        split_ifs
+        · have := b1 y z hmy hyM hmz hzM; constructor <;> linarith
+        · have := b1 z x hmz hzM hmx hxM; constructor <;> linarith
+        · have := b1 x y hmx hxM hmy hyM; constructor <;> linarith
+      generalize (if x = M then (y - z) / (M - m) else if y = M then 2 + (z - x) / (M - m)
+              else 4 + (x - y) / (M - m)) = H at hH ⊢
+      obtain ⟨hH1, hH2⟩ := hH
+      simp only []
+      refine ⟨?_, ?_, ?_, ?_, hM0', hM1⟩
+      · split_ifs with hneg <;> linarith
+      · split_ifs with hneg <;> linarith
+      · exact div_nonneg hr.le hM0'
+      · rw [div_le_one hMpos]; linarith
+
+/-- `hsv2rgb_d` maps [0,1]³ into the unit cube -/
+theorem hsv2rgbV3_range {fl : α → Int} (hfl : IsFloor fl) (h s v : α) (hh0 : 0 ≤ h) (hh1 : h ≤ 1)
+    (hs0 : 0 ≤ s) (hs1 : s ≤ 1) (hv0 : 0 ≤ v) (hv1 : v ≤ 1) :
+    0 ≤ (hsv2rgbV3 fl ⟨h, s, v⟩).x ∧ (hsv2rgbV3 fl ⟨h, s, v⟩).x ≤ 1 ∧
+    0 ≤ (hsv2rgbV3 fl ⟨h, s, v⟩).y ∧ (hsv2rgbV3 fl ⟨h, s, v⟩).y ≤ 1 ∧
+    0 ≤ (hsv2rgbV3 fl ⟨h, s, v⟩).z ∧ (hsv2rgbV3 fl ⟨h, s, v⟩).z ≤ 1 := by
+  have key : ∀ h' : α, 0 ≤ h' → h' < 1 →
+      0 ≤ (hsv2rgbV3 fl ⟨h', s, v⟩).x ∧ (hsv2rgbV3 fl ⟨h', s, v⟩).x ≤ 1 ∧
+      0 ≤ (hsv2rgbV3 fl ⟨h', s, v⟩).y ∧ (hsv2rgbV3 fl ⟨h', s, v⟩).y ≤ 1 ∧
+      0 ≤ (hsv2rgbV3 fl ⟨h', s, v⟩).z ∧ (hsv2rgbV3 fl ⟨h', s, v⟩).z ≤ 1 := by
+    intro h' h0 h1
+    have hb := hfl (h' * 6)
+    set k := fl (h' * 6) with hk
+    have hk0 : 0 ≤ k := by
+      have : ((-1 : Int) : α) < (k : α) := by push_cast; linarith [hb.2]
+      have := Int.cast_lt.mp this; omega
+    have hk5 : k ≤ 5 := by
+      have : (k : α) < ((6 : Int) : α) := by push_cast; linarith [hb.1]
+      have := Int.cast_lt.mp this; omega
+    rw [hsv2rgbV3_sextant hfl h' s v k hk0 hk5 hb.1 hb.2]
+    set f := h' * 6 - (k : α) with hf
+    have hf0 : 0 ≤ f := by linarith [hb.1]
+    have hf1 : f ≤ 1 := by linarith [hb.2]
+    have hsf0 : 0 ≤ s * f := mul_nonneg hs0 hf0
+    have hsf1 : s * f ≤ 1 := by nlinarith
+    have hsg0 : 0 ≤ s * (1 - f) := mul_nonneg hs0 (by linarith)
+    have hsg1 : s * (1 - f) ≤ 1 := by nlinarith
+    have hp0 : 0 ≤ v * (1 - s) := mul_nonneg hv0 (by linarith)
+    have hp1 : v * (1 - s) ≤ 1 := by nlinarith
+    have hq0 : 0 ≤ v * (1 - s * f) := mul_nonneg hv0 (by linarith)
+    have hq1 : v * (1 - s * f) ≤ 1 := by nlinarith
+    have ht0 : 0 ≤ v * (1 - s * (1 - f)) := mul_nonneg hv0 (by linarith)
+    have ht1 : v * (1 - s * (1 - f)) ≤ 1 := by nlinarith
+    interval_cases k <;> simp only [sextant] <;> exact ⟨by assumption, by assumption, by assumption, by assumption, by assumption, by assumption⟩
+  rcases hh1.lt_or_eq with hlt | heq
+  · exact key h hh0 hlt
+  · rw [heq, hsv2rgbV3_hue_one]; exact key 0 (le_refl _) (by norm_num)
+end Ranges
 end ImathVerif.ColorAlgo
